@@ -443,3 +443,44 @@ def r03e(ctx):
     fn = model.method(si, "_filter_passthrough_available", own=True).node
     good = any("isinstance(x, Index)" in unparse(r.value) and isinstance(r.value, ast.UnaryOp) for r in ast.walk(fn) if isinstance(r, ast.Return) and r.value is not None)
     (ctx.ok if good else ctx.bad)("_shuffle.SetIndex._filter_passthrough_available:index-predicate", si.module.loc(fn), "predicates on the index are refused" if good else "a predicate that reads the index is moved below set_index, where the index is a different one")
+
+
+@rule(
+    "R03f",
+    ["C03", "C19"],
+    """CONJUNCTION SPLITTING AGREEMENT: Merge._filter_passthrough_available judges a conjunction by descending into one side
+    (`predicate = predicate.<side>` while it is an And) and Merge._simplify_up peels the SAME side off first
+    (Filter(self, predicate.<side>), remaining side re-applied on top); the And-splitting shortcut in the legality
+    test builds Filter(self, parent.predicate.<side>) as well. If the sides differ, the legality test approves a term
+    that is not the one being moved (wrong rows), or the split and Filter squashing undo each other forever
+    (the optimizer does not converge).""",
+)
+def r03f(ctx):
+    model = ctx.model
+    merge = model.cls("Merge", "_merge")
+    fpa = model.method(merge, "_filter_passthrough_available", own=True).node
+    su = model.method(merge, "_simplify_up", own=True).node
+    sides = {}
+    # while isinstance(predicate, And): predicate = predicate.<side>
+    for w in ast.walk(fpa):
+        if isinstance(w, ast.While) and "And" in ast.unparse(w.test):
+            for a in ast.walk(w):
+                if isinstance(a, ast.Assign) and isinstance(a.value, ast.Attribute) and a.value.attr in ("left", "right"):
+                    sides["legality descent"] = (a.value.attr, a)
+    for n in ast.walk(fpa):
+        if isinstance(n, ast.Call) and dotted(n.func) == "Filter" and len(n.args) == 2 and isinstance(n.args[1], ast.Attribute) and n.args[1].attr in ("left", "right"):
+            sides["legality And-split"] = (n.args[1].attr, n)
+    for n in ast.walk(su):
+        if isinstance(n, ast.Call) and dotted(n.func) == "Filter" and len(n.args) == 2 and isinstance(n.args[1], ast.Attribute) and n.args[1].attr in ("left", "right") and ast.unparse(n.args[0]) == "self":
+            sides["rewrite peel"] = (n.args[1].attr, n)
+        if isinstance(n, ast.Call) and isinstance(n.func, ast.Attribute) and n.func.attr == "substitute" and isinstance(n.func.value, ast.Attribute) and n.func.value.attr in ("left", "right") and ast.unparse(n.func.value.value) == "predicate":
+            other = "left" if n.func.value.attr == "right" else "right"
+            sides["rewrite remainder"] = (other, n)
+    if len(sides) < 3:
+        raise AnalysisError(f"anchor vanished: conjunction splitting sites of Merge (found {sorted(sides)})")
+    vals = {v[0] for v in sides.values()}
+    if len(vals) == 1:
+        ctx.ok("_merge.Merge:and-split-side", merge.module.loc(fpa), f"all {len(sides)} sites use the `{next(iter(vals))}` term first")
+    else:
+        first = next(iter(sides.values()))
+        ctx.bad("_merge.Merge:and-split-side", merge.module.loc(first[1]), "the sites disagree on which side of a conjunction is handled first: " + ", ".join(f"{k}: .{v[0]}" for k, v in sorted(sides.items())) + " - the legality test then judges a different term than the one the rewrite moves")
